@@ -222,7 +222,10 @@ func (p *parser) parseDate(r []string) (bool, error) {
 	if dateFrom, err = time.Parse("January 2, 2006", dates[0]); err != nil {
 		return false, err
 	}
-	if dateTo, err = time.Parse("January 2, 2006", dates[1]); err != nil {
+	if len(dates) == 1 {
+		// a daily statement gives its day instead of a range
+		dateTo = dateFrom
+	} else if dateTo, err = time.Parse("January 2, 2006", dates[1]); err != nil {
 		return false, err
 	}
 	p.dateFrom, p.dateTo = dateFrom, dateTo
